@@ -74,6 +74,7 @@ class ReconWorld:
         self.run_no = 0
         self.port = 51826
         self.state_num = 1
+        self._abandoned = set()
         self.tasks = []
         self._instrument()
 
@@ -288,6 +289,14 @@ class ReconWorld:
             tr.wakeups.append(t0)
             if not p._shutdown:
                 self.conn.reconnect_soon()
+        elif name == "stall":
+            # the accessory stops reading: what the controller writes from now on stays in its transport's write buffer, and a close()
+            # of that transport completes (connection_lost) only when the buffer is flushed or the socket fails - as asyncio's does
+            cur = [c for c in self.held() if c.secure and c.open and not c.peer_closed and not c.t.stalled]
+            if cur:
+                cur[-1].t.stalled = True
+                tr.final["stalled"] = True
+                note = "stalled"
         elif name == "drop":
             cur = [c for c in self.held() if c.secure and c.open and not c.peer_closed]
             if cur:
@@ -325,6 +334,15 @@ class ReconWorld:
 
     def observe(self):
         c = self.conn
+        # the controller itself gave up the newest established session (request timeout, protocol error ...) while the pairing is open:
+        # that is a lost session as much as a drop by the peer
+        allc = sorted((x for a in self._accs() for x in a.conns), key=lambda x: x.opened_at)
+        if allc and not self.tr.closes:
+            x = allc[-1]
+            at = x.t.closed_by_controller_at
+            if x.secure and at is not None and not x.peer_closed and id(x) not in self._abandoned:
+                self._abandoned.add(id(x))
+                self.tr.lost.append(at)
         self.tr.obs.append({"time": self.loop.time(), "held": len(self.held()), "acc_open": len(self.acc_open()),
                             "connected": bool(self.p.is_connected), "attempts": len(self.tr.attempts),
                             "active": self.active_attempts,
